@@ -4,9 +4,10 @@ import time
 from fractions import Fraction
 
 import treeutil as tu
+from common import hex6
 
 ID = "C08"
-GEN_DEPENDS = []
+GEN_DEPENDS = ["PyBits"]     # the update_bipartitions part of the model re-uses C01's `encode`, which calls the generated bit functions
 RULE = ("random rose trees 1-12 leaves (30 in thorough; unary nodes/chains incl. unary seed, polytomies, fixed families, None/zero/dyadic "
         "lengths, namespaces with extra and removed members, shuffled taxon->bit map) x subset K of the leaf taxa (random, exactly one, "
         "all-but-one, all, one whole clade emptied / only one clade kept) x suppress_unifurcations x update_bipartitions x 11 taxon-driven "
@@ -21,27 +22,28 @@ RULE = ("random rose trees 1-12 leaves (30 in thorough; unary nodes/chains incl.
         "subset of every ordered shape <= 5 leaves and of every unordered shape with 6 and 7 leaves. Non-trivial = 1 < |K| < n "
         "(taxon group) or a predicate that removes some but not all leaves")
 MODELLED_NOT_VERIFIED = [
-    "C08: prune_taxa / prune_leaves_without_taxa / filter_leaf_nodes / retain_taxa / prune_subtree / Node.extract_subtree are hand-modelled "
-    "(lean/DendroModel/Model/C08.lean: strike, dropLoop, T.sup, cut, exStep over the post-order sequence with a memo) and tied to the code by "
-    "the per-case comparison of the resulting trees (node identity, order, taxa, exact lengths) and removed-node sets",
-    "C08: label -> taxon lookup of the *_with_labels variants, node labels/annotations, and the bipartition re-encoding requested by "
-    "update_bipartitions are exercised by the harness only (the encoding is compared with a from-scratch walk); filter functions are "
-    "represented by the set of node ids / taxa they accept; update_bipartitions=True is exercised on rooted trees only (on unrooted trees the "
-    "re-encoding collapses the basal bifurcation, which is C01/C14 territory)",
+    "C08: prune_taxa / prune_leaves_without_taxa / filter_leaf_nodes / retain_taxa / prune_subtree / Node.extract_subtree / "
+    "TaxonNamespace.get_taxa (label lookup of the *_with_labels variants) / the update_bipartitions re-encoding (C01's encode) are "
+    "hand-modelled (lean/DendroModel/Model/{C08,C08Upd}.lean: strike, dropLoop, T.sup, cut, exStep over the post-order sequence with a memo, "
+    "lookupLabel/addNew/getTaxa, reencode) and tied to the code by the per-case comparison of the resulting trees (node identity, order, "
+    "taxa, exact lengths), removed-node sets, exception kinds and (leafset, split) encodings",
+    "C08: case folding of labels is str.lower() in the code and ASCII String.toLower in the model (generated labels are ASCII); node "
+    "labels/annotations and source immutability are checked by the harness only; filter functions are represented by the set of node ids / "
+    "taxa they accept; update_bipartitions=True is exercised on rooted trees only (on unrooted trees the re-encoding collapses the basal "
+    "bifurcation, which is C01/C14 territory; the theorem upd_eq_fresh_encoding covers every rooting state)",
 ]
-EXPLANATION = ("Theorems over all trees/predicates about the definitions drv_c08 runs: the loop-based in-place mechanisms and the memo-driven "
-               "extraction equal the recursively defined induced subtree `restrict` (prune_eq_restrict, filter_eq_restrict, retain_eq_prune_compl, "
-               "extract_eq_restrict, extract_all_leaves, extract_node_eq_restrict for any start node, extract_error_kind for the exception class, "
-               "taxonFilter_restrict, variants_agree with finite prune/namespace lists, prune_subtree_eq_restrict); for ARBITRARY filters and trees "
-               "the loop computes the generalised spec restrictA (filter_eq_restrictA, removed_spec_any, restrictA_eq_restrict), its fuel always "
-               "suffices (dropLoop_fuel), the non-recursive call is one pass (filter_once_spec); suppression after restriction = restriction with "
-               "merging (restrict_sup_commutes); clades are exactly the non-empty restrictions (restrict_clades, restrict_none_clades); leaf-to-leaf "
-               "and root-to-leaf lengths are kept in Q (restrict_pathlen, restrict_rootlen) and the executable distF the driver prints denotes them "
-               "(distF_denotes, restrict_pathlen_exec); declined suppression keeps exactly the nodes with a kept leaf below, their records and the "
-               "parent/child pairs (alive_spec, nosuppress_nodes, nosuppress_edges, nosuppress_spec); requested suppression leaves no unary node "
-               "(suppress_no_unary); removed nodes (removed_spec); single survivor (single_survivor). Hypotheses where stated: taxa on leaves only, "
-               "taxon-driven filters, distinct node ids, non-zero denominators. Correspondence + oracle only: the internal-node filter flag "
-               "(fi=true) of prune_taxa/extract_tree, update_bipartitions, label lookups, source immutability.")
+EXPLANATION = ("Theorems over all trees/predicates about the definitions drv_c08 runs. Mechanism = specification: prune_eq_restrict, "
+               "prune_flags_eq_spec / prune_internal_flag_eq_restrict (both flags, internal taxa), filter_eq_restrict, filter_eq_restrictA / "
+               "removed_spec_any / dropLoop_fuel / filter_once_spec (arbitrary filters, fuel, non-recursive), retain_eq_prune_compl, "
+               "extract_eq_restrict / extract_flags_eq_spec / extract_error_kind (memo fold = spec for both filter flags, with the exception "
+               "class), extract_node_eq_restrict / extract_node_flags_eq_spec (any start node), prune_subtree_eq_restrict, variants_agree; "
+               "by label: get_taxa_spec, named_iff_label, labels_variants_eq_restrict, labels_prune_retain_agree; update_bipartitions: "
+               "upd_eq_fresh_encoding (any rooting), upd_rooted_encoding, upd_rooted_leafsets, upd_subtree_rooted. About the specification: "
+               "restrict_sup_commutes, restrict_clades, restrict_none_clades, restrict_pathlen, restrict_rootlen, distF_denotes, "
+               "restrict_pathlen_exec, restrict_pathlen_parsed (no side condition: parsed_lengths_wf, restrict_lengths_wf), alive_spec, "
+               "nosuppress_nodes, nosuppress_edges, nosuppress_spec, suppress_no_unary, removed_spec, single_survivor, restrictA_eq_restrict, "
+               "exSpec_without_internal_filter. Hypotheses where stated: taxa on leaves only, taxon-driven filters, distinct node ids. "
+               "Harness only: source immutability, node/edge labels, update_bipartitions on unrooted trees.")
 
 
 ROOT = {True: "R", False: "U", None: "N"}
@@ -442,6 +444,13 @@ def judge(ctx, case, variant, src, surv, out, expect_removed=None):
     return False
 
 
+def upd_text(out):
+    """tree | sorted leafset:split pairs of tree.bipartition_encoding (what update_bipartitions=True leaves behind)"""
+    enc = out["tree"].bipartition_encoding or []
+    pairs = sorted((b.leafset_bitmask, b.split_bitmask) for b in enc)
+    return render_nest(out["nest"]) + " | " + " ".join("%d:%d" % p for p in pairs)
+
+
 def impl_text(out):
     s = render_nest(out["nest"])
     if out.get("removed") is not None:
@@ -475,6 +484,11 @@ def taxon_group(ctx, dendropy, case, pending, variants=None):
             continue
         if not bad:
             pending.append((out["line"], dict(case, variant=variant), impl_text(out)))
+            if case["upd"] and case["rooted"] == "R" and out["line"].split()[0] in ("prune", "retain", "filter"):
+                w = out["line"].split()
+                rest = w[4:] if w[0] == "prune" else (w[3:] if w[0] == "filter" else w[2:])
+                pending.append(("upd R %s %s %s" % (w[1], w[0], " ".join(rest)), dict(case, variant=variant + "+update_bipartitions"),
+                                upd_text(out)))
     if len(src.leaves) <= 14 and case.get("measure", True):
         measure_line(ctx, dendropy, case, src, pending)
     # the specification of the model itself against this oracle's induced subtree
@@ -535,6 +549,9 @@ def filter_case(ctx, dendropy, case, pending):
     c2 = dict(case, clause_checks=all(not src.kids[i] for i in surv if not any(c in surv for c in src.kids[i])))
     if not judge(ctx, c2, "filter_leaf_nodes", src, surv, out):
         pending.append((line, case, impl_text(out)))
+        if rec and case["upd"] and case["rooted"] == "R":
+            pending.append(("upd R %d filter ids %s %s" % (case["sup"], nums(sorted(acc)), " ".join(case["tree"])),
+                            dict(case, variant="filter_leaf_nodes+update_bipartitions"), upd_text(out)))
     if rec:
         # the model's generalised specification against this oracle's survivors
         pending.append(("restrictA %d ids %s %s" % (case["sup"], nums(sorted(acc)), " ".join(case["tree"])),
@@ -549,6 +566,10 @@ def extract_case(ctx, dendropy, case, pending):
     surv, status = survivors_extract(src, acc, fl, fi)
     line = "extract %d %d %d ids %s %s" % (case["sup"], fl, fi, nums(sorted(acc)), " ".join(case["tree"]))
     ctx.case(["extract", case["tree"], sorted(acc), fl, fi, case["sup"]], 1 < len(surv) < src.n, kind="extract_tree-ids", sample=case)
+    # the model's two-flag specification against this oracle's survivors
+    pending.append(("exspec %d %d %d ids %s %s" % (case["sup"], fl, fi, nums(sorted(acc)), " ".join(case["tree"])),
+                    dict(case, variant="exspec"),
+                    render_nest(build_from_survivors(src, surv, case["sup"])) if status == "ok" else "none"))
     tree, ids = make_tree(dendropy, case)
     fp = fingerprint(tree)
     try:
@@ -641,6 +662,9 @@ def subtree_case(ctx, dendropy, case, pending):
     out = {"tree": tree, "idfn": ids.of, "ids": ids}
     if not judge(ctx, case, "prune_subtree", src, surv, out):
         pending.append((line, case, impl_text(out)))
+        if case["upd"] and case["rooted"] == "R":
+            pending.append(("upd R %d subtree %d %s" % (case["sup"], v, " ".join(case["tree"])),
+                            dict(case, variant="prune_subtree+update_bipartitions"), upd_text(out)))
 
 
 LABEL_VARIANTS = ["prune_taxa_with_labels", "retain_taxa_with_labels", "extract_tree_with_taxa_labels",
@@ -684,24 +708,25 @@ def labels_case(ctx, dendropy, case, pending, variants=None):
         for t in tns:
             t.label = lab[tns.accession_index(t)]         # relabelled after construction: several taxa may now share a label
         out = {"removed": None, "source": None, "ids": ids, "idfn": ids.of, "tree": tree}
-        kept_bits = sorted(src.tax[i] for i in kept)
-        gone_bits = sorted(src.tax[i] for i in src.leaves if i not in kept)
+        nstoks = "%d %s" % (len(case["ns"]["bits"]), " ".join("%d %s" % (b, hex6(l)) for b, l in zip(case["ns"]["bits"], case["labels"])))
+        ltoks = "%d%s" % (len(given), "".join(" " + hex6(g) for g in given))
+        byl = "bylabel %%s %d %d %s %s %s" % (sup, case["case_sensitive"], nstoks, ltoks, ttoks)
         try:
             if variant == "prune_taxa_with_labels":
                 tree.prune_taxa_with_labels(list(given), update_bipartitions=upd, suppress_unifurcations=sup)
-                out["line"] = "prune %d 1 0 %s %s" % (sup, nums(gone_bits), ttoks)
+                out["line"] = byl % "prune"
             elif variant == "retain_taxa_with_labels":
                 tree.retain_taxa_with_labels(list(given), update_bipartitions=upd, suppress_unifurcations=sup)
-                out["line"] = "retain %d %s %s %s" % (sup, nums(case["ns"]["bits"]), nums(kept_bits), ttoks)
+                out["line"] = byl % "retain"
             else:
                 out["source"] = tree
                 out["fp_before"] = fingerprint(tree)
                 if variant == "extract_tree_with_taxa_labels":
                     out["tree"] = tree.extract_tree_with_taxa_labels(list(given), suppress_unifurcations=sup)
-                    out["line"] = "extract %d 1 0 taxa %s %s" % (sup, nums(kept_bits), ttoks)
+                    out["line"] = byl % "with"
                 else:
                     out["tree"] = tree.extract_tree_without_taxa_labels(list(given), suppress_unifurcations=sup)
-                    out["line"] = "extract %d 1 0 nottaxa %s %s" % (sup, nums(gone_bits), ttoks)
+                    out["line"] = byl % "without"
                 out["idfn"] = (lambda ids_: (lambda nd: ids_.of(getattr(nd, "extraction_source", None))))(ids)
         except RecursionError:
             raise
